@@ -261,6 +261,14 @@ def session_cases(rep, scratch):
             for tree, report, secs, fmt in order:
                 note = f'one Rst object formatted {one} then {two}; this one written {"first" if tree is order[0][0] else "second"}'
                 judge(rep, tree[0], tree[1], tree[2], scratch, prepared=(report, secs, fmt, note))
+    # the same report object (hence the same result objects) formatted twice by one Rst object, e.g. once per output directory:
+    # the second formatted report is as complete as the first (figures included)
+    for tree in SESSION_TREES:
+        rst = Rst(rpr.Representation(rpr.FullRepresenter(), verbosity=Verbosity.FULL_DETAILS))
+        report, secs = build_report(*tree)
+        rst.format_report(report=report, author='me', version='0')
+        fmt2 = rst.format_report(report=report, author='me', version='0')
+        judge(rep, tree[0], tree[1], tree[2], scratch, prepared=(report, secs, fmt2, f'one Rst object formatted the report {tree} twice; second one written'))
 
 
 def depth_cases(rep, scratch):
